@@ -11,6 +11,21 @@ TB = ("Trusted: Lean 4.33 kernel; axioms ⊆ {propext, Classical.choice, Quot.so
       "(constants/tables regenerated from /repo) and the differential correspondence stream; ")
 
 NOTES = {
+    "C13": {
+        "text": "Kernel-checked for every byte width k at once (u16…u128 and beyond): LE encode/decode are mutually inverse, byte j is n/256^j%256, two's-complement signed round trip, "
+                "bool read/write, usize conversion succeeds iff the value fits and round-trips, single casts succeed iff length = k, slice casts iff length % k = 0 and alias the same bytes. "
+                "Equality with Borsh/Serde/Wincode encoders of the primitive is established by the exhaustive (u16, i16, bool) and sampled correspondence stream, not by proof.",
+        "design_ref": "§5 C13",
+        "note": TB + "third-party encoders (borsh, serde_json, wincode) and bytemuck's cast rules are modelled, validated by the stream; feature combinations are checked by cargo check, not modelled.",
+        "technique": "Lean 4 theorem (unbounded width/value, kernel-checked) + exhaustive/sampled differential correspondence + feature-matrix build",
+    },
+    "C14": {
+        "text": "Kernel-checked for every value type with decidable equality and every none value: get is none iff value = none value, Option/COption round trips are the identity, "
+                "the only rejected input is some(none-value) (conversions and the Serde path), default is none, encodings are those of the wrapped value (identity wrapper).",
+        "design_ref": "§5 C14",
+        "note": TB + "Borsh/Serde byte-level encodings of the wrapped type are outside the model (identity wrapper assumed, validated by the stream for Address and a u64 wrapper).",
+        "technique": "Lean 4 theorem (generic over the wrapped type, kernel-checked) + differential correspondence with oracle",
+    },
     "C16": {
         "text": "Kernel-checked theorems over all byte strings: whenever the (modelled) SPL Token Pack codec or Token-2022 StateWithExtensions::unpack accepts a buffer, "
                 "the model of the generic parser returns the same mint/owner/amount (supply/decimals); uninitialised never parses; base layouts parse identically under both ids. "
